@@ -338,7 +338,7 @@ type CheckResult struct {
 func runCheck(w *World, spec *PropSpec, tier string, workers int, solverKind string) *CheckResult {
 	start := time.Now()
 	jobs := spec.Jobs(tier)
-	budget := 25 * time.Minute
+	budget := 40 * time.Minute
 	if tier == "thorough" {
 		budget = 6 * time.Hour
 	}
@@ -366,8 +366,8 @@ func runCheck(w *World, spec *PropSpec, tier string, workers int, solverKind str
 			if j.Timeout == 0 {
 				j.Timeout = 10 * time.Minute
 			}
-			if tier != "thorough" && j.Timeout > 6*time.Minute {
-				j.Timeout = 6 * time.Minute // quick tier: no job runs longer than this on the unchanged tree
+			if tier != "thorough" && j.Timeout > 12*time.Minute {
+				j.Timeout = 12 * time.Minute // quick tier: no job runs longer than this on the unchanged tree
 			}
 			if time.Since(start) > budget {
 				r := newJobResult(j)
